@@ -16,7 +16,7 @@ Ev == Rec[l]
 
 MaskSet(m, n) == {i \in 1..n : (m \div (2^(i-1))) % 2 = 1}
 Dec(v) == [p \in Peers |-> [k |-> v[p][1] = 1, c |-> MaskSet(v[p][2], NC), t |-> v[p][3] = 1,
-                            a |-> v[p][4] = 1, kind |-> v[p][5], pr |-> MaskSet(v[p][6], NT)]]
+                            a |-> v[p][4] = 1, kind |-> v[p][5], pr |-> MaskSet(v[p][6], NT), old |-> v[p][7] = 1]]
 PubSeq(i) == <<i.conn, i.trusted, i.full, i.arch>>
 PubRec(s) == [conn |-> s[1], trusted |-> s[2], full |-> s[3], arch |-> s[4]]
 Real == Dec(Ev.views)
@@ -37,6 +37,7 @@ Act == LET n == Ev.name  p == Ev.p  x == Ev.x IN
        \/ n = "mark_as_archival"  /\ MarkArchival(p)
        \/ n = "on_ping"           /\ Ping(p, x)
        \/ n = "gc"                /\ Gc
+       \/ n = "age"               /\ Age(p)
 Conform == /\ P' = Real /\ res' = Ev.res /\ PubSeq(pub') = Ev.pub
            /\ \A t \in Tags : pcount'[t] = Ev.pcount[t]
 Follow == /\ P' = Real /\ pub' = PubRec(Ev.pub) /\ pcount' = [t \in Tags |-> Ev.pcount[t]]
